@@ -195,7 +195,15 @@ impl Harness for MphfPar {
     fn run(&self, c: &Case, rec: &mut Rec) -> Result<(), Violation> {
         use debruijn::kmer::*;
         type KmerK31 = VarIntKmer<u64, K31>;
+        type Kmer6w = VarIntKmer<u64, K6>;
+        type Kmer12w = VarIntKmer<u128, K12>;
+        type Kmer20w = VarIntKmer<u128, K20>;
         match c.graph.ktype.as_str() {
+            "Kmer33u" => run_k::<simcore::userkmer::Kmer33u>(c, rec),
+            "Kmer80u" => run_k::<simcore::userkmer::Kmer80u>(c, rec),
+            "Kmer6w" => run_k::<Kmer6w>(c, rec),
+            "Kmer12w" => run_k::<Kmer12w>(c, rec),
+            "Kmer20w" => run_k::<Kmer20w>(c, rec),
             "Kmer4" => run_k::<Kmer4>(c, rec),
             "Kmer5" => run_k::<Kmer5>(c, rec),
             "Kmer6" => run_k::<Kmer6>(c, rec),
